@@ -536,7 +536,7 @@ def pipeline(tier, seed):
         # S1: the generated-code layer on the composition builder layout -> templates -> bytes
         log("lab: S1 TLC model checking MCRecord_%s.cfg" % tier)
         from common import tlc_action_counts
-        mc = run_tlc("MCRecord", "MCRecord_%s.cfg" % tier, workers=12, timeout=5000, heap="16g", coverage=(tier == "thorough"))
+        mc = run_tlc("MCRecord", "MCRecord_%s.cfg" % tier, workers=12, timeout=7000, heap="24g")
         res["mc"] = {"states": mc["states"], "distinct": mc["distinct"], "depth": mc["depth"], "ok": mc["ok"],
                      "violated": mc["violated"], "wall_s": mc["wall_s"], "actions": tlc_action_counts(mc["out"])}
         if not mc["ok"] and not mc["violated"]:
